@@ -24,7 +24,9 @@ RULE = (
     "deep -> the remembered states; shallow -> the remembered children of P plus their default entry; never exited -> the "
     "history default target entered normally, else P's default entry; every expected state entered exactly once in that "
     "transition and no other state of P entered. Non-trivial = a judged history transition whose remembered leaf differs "
-    "from P's default leaf, or P parallel, or deep history below depth>=2; distinct = distinct (spec, history) hash."
+    "from P's default leaf, or P parallel, or deep history below depth>=2; distinct = distinct (spec, history) hash. "
+    "Campaign `shaped`: P is a parallel state (or a compound wrapping one) whose regions own atomic, final and nested "
+    "compound children (left in a non-initial grandchild), with a snapshot->restore before RESUME half of the time."
 )
 ASSUMPTIONS = [
     "domain as in the property's quantifier: source outside P and P inactive when the transition is taken; other history "
